@@ -30,7 +30,7 @@ impl Prop for C01 {
         "C01"
     }
     fn cases(&self, tier: Tier) -> u64 {
-        tier.pick(1_000_000, 6_000_000)
+        tier.pick(1_000_000, 12_000_000)
     }
     fn strategy(&self, _tier: Tier) -> BoxedStrategy<Case> {
         let policy = prop_oneof![
